@@ -281,6 +281,26 @@ func runPushConnSeq(seed int64, nBatches, nSlow int, statuses []int, ramp int) (
 		before := len(ep.log)
 		wants := map[string]wantEnvelope{}
 		var ids []uuid.UUID
+		planOf := map[uuid.UUID]pushPlan{}
+		// a mixed batch: slow successes and failures (and fast successes) finish together, so that
+		// several queues are non-empty when Receive runs
+		plans := make([]pushPlan, k)
+		for i := range plans {
+			plans[i] = plan
+		}
+		if b >= ramp && si > len(statuses)-1 && k >= 3 && slowLeft > 0 && r.Float64() < 0.5 {
+			slowLeft--
+			for i := range plans {
+				switch i % 3 {
+				case 0:
+					plans[i] = pushPlan{Status: 200, Delay: 1150 * time.Millisecond}
+				case 1:
+					plans[i] = pushPlan{Status: 503, Delay: 1150 * time.Millisecond}
+				default:
+					plans[i] = pushPlan{Status: 204, Delay: 1150 * time.Millisecond}
+				}
+			}
+		}
 		for i := 0; i < k; i++ {
 			d := &actions.SubscriptionMessageDelivery{ID: uuid.New(), MessageID: uuid.New(),
 				PublishedAt: time.Unix(1700000000+r.Int63n(1e6), r.Int63n(1e9)).UTC(), NumAttempts: 1 + r.Intn(5),
@@ -297,8 +317,9 @@ func runPushConnSeq(seed int64, nBatches, nSlow int, statuses []int, ramp int) (
 				d.OrderKey = &key
 			}
 			ep.mu.Lock()
-			ep.plans[d.MessageID.String()] = []pushPlan{plan}
+			ep.plans[d.MessageID.String()] = []pushPlan{plans[i]}
 			ep.mu.Unlock()
+			planOf[d.ID] = plans[i]
 			wants[d.MessageID.String()] = wantEnvelope{Payload: d.Payload, Attrs: d.Attributes, MessageID: d.MessageID.String(), Key: key,
 				Published: d.PublishedAt, Sub: subName, Attempt: d.NumAttempts}
 			ids = append(ids, d.ID)
@@ -318,26 +339,44 @@ func runPushConnSeq(seed int64, nBatches, nSlow int, statuses []int, ramp int) (
 			}
 			time.Sleep(2 * time.Millisecond)
 		}
-		rctx, rcancel := context.WithTimeout(ctx, 5*time.Second)
-		req, err := conn.Receive(rctx)
-		rcancel()
-		if err != nil {
-			return nil, nil, nil, err
+		// Receive until every push of the batch came back; each Receive returns one kind
+		var got []uuid.UUID
+		for len(got) < k {
+			rctx, rcancel := context.WithTimeout(ctx, 5*time.Second)
+			req, err := conn.Receive(rctx)
+			rcancel()
+			if err != nil {
+				return nil, nil, nil, fmt.Errorf("Receive with %d of %d pushes returned: %w", len(got), k, err)
+			}
+			members := append(append([]uuid.UUID(nil), req.Ack...), req.Nack...)
+			if len(members) == 0 {
+				return nil, nil, nil, fmt.Errorf("Receive returned neither acks nor nacks")
+			}
+			p0 := planOf[members[0]]
+			cb := connBatch{Err: p0.Drop, Status: p0.Status, DurNS: int64(p0.Delay), K: len(members), Ack: len(req.Ack) > 0, W: vc.Window().MaxMessages}
+			if req.FlowControl != nil {
+				cb.FC = &[2]int{req.FlowControl.MaxMessages, req.FlowControl.MaxBytes}
+			}
+			batches = append(batches, cb)
+			for _, id := range members {
+				pi, known := planOf[id]
+				succ := func(p pushPlan) bool {
+					return !p.Drop && (p.Status == 200 || p.Status == 201 || p.Status == 202 || p.Status == 204)
+				}
+				if !known || succ(pi) != succ(p0) || (pi.Delay >= time.Second) != (p0.Delay >= time.Second) || (len(req.Ack) > 0 && len(req.Nack) > 0) {
+					probs = append(probs, pushProblem{Key: "receive-mixes-kinds", Detail: fmt.Sprintf("batch %d: one Receive returned ack %d / nack %d ids whose pushes ended differently (%s vs %s)",
+						b, len(req.Ack), len(req.Nack), planStr(pi), planStr(p0)), Replay: cb})
+					break
+				}
+			}
+			got = append(got, members...)
 		}
-		cb := connBatch{Err: plan.Drop, Status: plan.Status, K: len(req.Ack) + len(req.Nack), Ack: len(req.Ack) > 0, W: vc.Window().MaxMessages}
-		if plan.Delay > 0 {
-			cb.DurNS = int64(plan.Delay)
-		}
-		if req.FlowControl != nil {
-			cb.FC = &[2]int{req.FlowControl.MaxMessages, req.FlowControl.MaxBytes}
-		}
-		batches = append(batches, cb)
-		got := append(append([]uuid.UUID(nil), req.Ack...), req.Nack...)
 		sort.Slice(got, func(i, j int) bool { return uuidLess(got[i], got[j]) })
 		sort.Slice(ids, func(i, j int) bool { return uuidLess(ids[i], ids[j]) })
-		if fmt.Sprint(got) != fmt.Sprint(ids) || (len(req.Ack) > 0 && len(req.Nack) > 0) {
-			probs = append(probs, pushProblem{Key: "receive-ids", Detail: fmt.Sprintf("batch %d: Receive returned ack %v nack %v for pushes %v", b, req.Ack, req.Nack, ids), Replay: cb})
+		if fmt.Sprint(got) != fmt.Sprint(ids) {
+			probs = append(probs, pushProblem{Key: "receive-ids", Detail: fmt.Sprintf("batch %d: Receive returned %v for pushes %v", b, got, ids)})
 		}
+		cb := batches[len(batches)-1]
 		// the envelopes of this batch
 		ep.mu.Lock()
 		logs := append([]*pushReqLog(nil), ep.log[before:]...)
